@@ -40,6 +40,10 @@ type Program struct {
 	FieldOwner map[*types.Var]string // field -> owner struct name
 	Structs    map[string]*types.Struct
 	FieldAlias map[*types.Var]string // private field -> role name (roles_fields.go)
+	// holders (holders.go): a private struct grouping state fields of Context by value is transparent
+	HolderSubs map[string][]*types.Var // location of the holder field ("ctx.blocks") -> its sub-fields
+	HolderOf   map[*types.Var]*types.Var // sub-field -> holder field
+	HolderType map[string]string       // holder type name -> location of the holder field
 	TypeAlias  map[string]string     // private type name -> role name
 
 	// callers: callee -> list of call sites (filled by callgraph.go)
@@ -163,6 +167,7 @@ func loadProgram(dir string, tags string, env []string) (*Program, error) {
 		}
 	}
 	prog.nFuncs = len(prog.Funcs)
+	prog.flattenHolders()
 	prog.deriveAliases()
 	return prog, nil
 }
